@@ -36,11 +36,40 @@ trait Job {
     fn run<W: io::Write>(&self, w: W) -> io::Result<usize>;
 }
 
+/// a destination that accepts the bytes in short pieces (3, then 2, then 5, then 1 bytes per `write` call, cyclically; its
+/// `write_vectored` is the default: the first non-empty slice), as pipes and sockets do
+struct Pieces {
+    out: Vec<u8>,
+    k: usize,
+}
+impl io::Write for Pieces {
+    fn write(&mut self, buf: &[u8]) -> io::Result<usize> {
+        let step = [3usize, 2, 5, 1][self.k % 4];
+        self.k += 1;
+        let n = buf.len().min(step);
+        self.out.extend_from_slice(&buf[..n]);
+        Ok(n)
+    }
+    fn flush(&mut self) -> io::Result<()> {
+        Ok(())
+    }
+}
+
 /// Runs `job` on the destination selected by `cap` and reports what the destination holds afterwards.
 fn with_dest(cap: u128, pre: &[u8], job: &impl Job) -> Args {
     let (res, contents) = if cap == VEC {
         let mut v = pre.to_vec();
         let res = job.run(&mut v);
+        // the same call on a destination that takes the bytes in short pieces: same bytes, same count
+        let mut p = Pieces { out: Vec::new(), k: 0 };
+        let res2 = job.run(&mut p);
+        match (&res, &res2) {
+            (Ok(a), Ok(b)) => {
+                assert_eq!(a, b, "the returned count depends on how the destination splits the writes");
+                assert_eq!(&p.out[..], &v[pre.len()..], "the bytes written depend on how the destination splits the writes");
+            },
+            _ => panic!("a destination that never fails made the writer fail"),
+        }
         (res, v)
     } else {
         let cap = usize::try_from(cap).expect("capacity");
